@@ -16,6 +16,7 @@ import (
 	"sync"
 
 	"filippo.io/edwards25519"
+	"filippo.io/edwards25519/field"
 	b58 "github.com/mr-tron/base58/base58"
 	"github.com/zeebo/blake3"
 )
@@ -693,4 +694,85 @@ func Model_edwards25519_Point_SetBytes(p *edwards25519.Point, b []byte) (*edward
 //gosmt:model (*filippo.io/edwards25519.Point).BytesMontgomery
 func Model_edwards25519_Point_BytesMontgomery(p *edwards25519.Point) []byte {
 	return append([]byte{}, edToMont(SideGet(p).([]byte))...)
+}
+
+// ---- filippo.io/edwards25519/field: field arithmetic is idealised (uninterpreted functions over the
+// canonical 32-byte value); code that bypasses Point.SetBytes and computes with field elements directly
+// is therefore executable, and its result is unrelated to the result of the point decoding route.
+
+func feVal(e *field.Element) []byte {
+	if v := SideGet(e); v != nil {
+		return v.([]byte)
+	}
+	return make([]byte, 32)
+}
+
+//gosmt:model (*filippo.io/edwards25519/field.Element).SetBytes
+func Model_field_Element_SetBytes(e *field.Element, x []byte) (*field.Element, error) {
+	if len(x) != 32 {
+		return nil, errModel("edwards25519: invalid field element input size")
+	}
+	SideSet(e, maskSign(x))
+	return e, nil
+}
+
+//gosmt:model (*filippo.io/edwards25519/field.Element).One
+func Model_field_Element_One(e *field.Element) *field.Element {
+	v := make([]byte, 32)
+	v[0] = 1
+	SideSet(e, v)
+	return e
+}
+
+//gosmt:model (*filippo.io/edwards25519/field.Element).Zero
+func Model_field_Element_Zero(e *field.Element) *field.Element {
+	SideSet(e, make([]byte, 32))
+	return e
+}
+
+//gosmt:model (*filippo.io/edwards25519/field.Element).Set
+func Model_field_Element_Set(e, a *field.Element) *field.Element {
+	SideSet(e, feVal(a))
+	return e
+}
+
+//gosmt:model (*filippo.io/edwards25519/field.Element).Add
+func Model_field_Element_Add(e, a, b *field.Element) *field.Element {
+	SideSet(e, UF("fe.add", 32, feVal(a), feVal(b)))
+	return e
+}
+
+//gosmt:model (*filippo.io/edwards25519/field.Element).Subtract
+func Model_field_Element_Subtract(e, a, b *field.Element) *field.Element {
+	SideSet(e, UF("fe.sub", 32, feVal(a), feVal(b)))
+	return e
+}
+
+//gosmt:model (*filippo.io/edwards25519/field.Element).Multiply
+func Model_field_Element_Multiply(e, a, b *field.Element) *field.Element {
+	SideSet(e, UF("fe.mul", 32, feVal(a), feVal(b)))
+	return e
+}
+
+//gosmt:model (*filippo.io/edwards25519/field.Element).Square
+func Model_field_Element_Square(e, a *field.Element) *field.Element {
+	SideSet(e, UF("fe.mul", 32, feVal(a), feVal(a)))
+	return e
+}
+
+//gosmt:model (*filippo.io/edwards25519/field.Element).Invert
+func Model_field_Element_Invert(e, a *field.Element) *field.Element {
+	SideSet(e, UF("fe.inv", 32, feVal(a)))
+	return e
+}
+
+//gosmt:model (*filippo.io/edwards25519/field.Element).Negate
+func Model_field_Element_Negate(e, a *field.Element) *field.Element {
+	SideSet(e, UF("fe.neg", 32, feVal(a)))
+	return e
+}
+
+//gosmt:model (*filippo.io/edwards25519/field.Element).Bytes
+func Model_field_Element_Bytes(e *field.Element) []byte {
+	return append([]byte{}, feVal(e)...)
 }
